@@ -80,7 +80,7 @@ func init() {
 		QuickS: 45, ThorS: 600, Rule: ruleCommon + "; for the 'names' scenario a run is a batch of (kind, hash, prefix, mode) tuples evaluated through the S3/Azure key functions (pure-function spot check)"})
 	// "holds no ... reserved space or temporary file" after a request ended:
 	// the quiescence clauses C03.reserved-zero and C04.stray-file are C14's too
-	props = append(props, &propSpec{ID: "C14", Level: "exploration", Clauses: []string{"C14.", "C03.reserved-zero", "C04.stray-file", "C07.deadlock"},
+	props = append(props, &propSpec{ID: "C14", Level: "exploration", Clauses: []string{"C14.", "C03.reserved-zero", "C04.stray-file", "C07.deadlock", "C12.no-leak"},
 		Scens:  []scenSpec{{Name: "hostile", Weight: 3}, {Name: "upload", Weight: 1}, {Name: "bswrite", Weight: 1}, {Name: "conc", Opt: map[string]string{"tight": "1"}, Weight: 1}, {Name: "backend", Weight: 1}},
 		QuickS: 45, ThorS: 900, Rule: ruleCommon})
 	props = append(props, &propSpec{ID: "C17", Level: "exploration", Clauses: []string{"C17."},
